@@ -421,9 +421,10 @@ def execute(plan: dict[str, Any]) -> dict[str, Any]:
         harness_error = str(e)
     finally:
         fs.uninstall()
-    unclosed = fs.unclosed()
-    if unclosed:
-        vio("handle-left-open", f"{unclosed} file handle(s) opened by from_filepath were not closed")
+    # Not a verdict (DESIGN.md 11.2, second false alarm): no property speaks about file handles,
+    # and an abort delivered on the line event of the ``with`` statement's normal-exit clean-up
+    # leaves the handle to the garbage collector on ANY Python program.
+    probes["handles_left_open_at_end_of_run"] = fs.unclosed()
     world.drain_log()
     import shutil
 
